@@ -51,9 +51,13 @@ EXPLANATION = (
     'splitEdgeMixed_misses_quad_diagonal: weaker than "lies on the cell"); mixed_frame: over ANY history of guarded '
     'operations the qua/pyr/pri/hex groups and the validity and coordinates of all their vertices are unchanged '
     '(mixed_frame_gated: unconditionally when the grid has a pyramid or prism; otherwise under the stated CavitySafe side '
-    'condition of an ungated cavity replacement); mixed_interface_conforming_split / _swap: every triangular face of a '
-    'pyramid / prism that had a tet face or boundary tri on it still has one after the guarded operation '
-    '(_collapse_partial: given the simplicial neighbour across the removed cell). Tied by streams mixed_fn (diff: local '
+    'condition of an ungated cavity replacement); mixed_interface_conforming_split / _swap / mixed_interface_history: every '
+    'triangular face of a pyramid / prism that had a tet face or boundary tri on it still has one after the guarded '
+    'operation and after any history of guarded splits, 2-D swaps and vertex moves (_collapse_partial: given the simplicial '
+    'neighbour across the removed cell); mixed_interface_exact_split: the guarded split keeps the NUMBER of tets and of '
+    'boundary tris on each such face, i.e. the truth value of C01''s own statement there (faceConforming, the predicate the '
+    'driver evaluates on every accepted operation of a real run); mixed_interface_conforming_split_2d: no hanging node on '
+    'a quadrilateral side of a planar grid. Tied by streams mixed_fn (diff: local '
     'configurations with 0..3 neighbours of each kind in every table position, incl. pyramids-without-prisms, '
     'prisms-without-pyramids, hexes only), mixed_smooth (validate: ref_smooth_tet_improve and both interior loops of '
     'ref_smooth_pass), mixed_run (validate: hooked real passes on hex+pyramid+tet, prism-layer+tet and all-kinds grids; '
@@ -61,9 +65,10 @@ EXPLANATION = (
 
 ASSUMPTIONS = [
     'mixed-element part: the cavity machine itself is not re-modelled on grids with non-simplex cells (only its gates and the '
-    'cell / vertex bookkeeping of ref_cavity_replace); exactly-one-neighbour (not only existence) on a frozen triangular face is '
-    'checked by the run-level and end-to-end oracles, not proved; ref_swap_pass (3-D two-face tet removal) is not used by '
-    'ref adapt and is not covered',
+    'cell / vertex bookkeeping of ref_cavity_replace); exactly-one-neighbour on a frozen triangular face is proved for the split '
+    'only (swap: existence; collapse: existence under the stated neighbour hypothesis; cavity: not at all) and otherwise checked '
+    'by the run-level and end-to-end oracles; the 2-D swap next to quadrilaterals is tied (function and run level) but has no '
+    'interface theorem; ref_swap_pass (3-D two-face tet removal) is not used by ref adapt and is not covered',
     'IEEE rounding in the numeric guards is modelled (Float instance, compared bit for bit through the decisions), not '
     'verified: theorems (c), (d) hold in exact real arithmetic',
     'the mesh is the list model the guards read: each cell group is the list of its cells in insertion order, '
